@@ -18,6 +18,10 @@ ALL = ["ca", "cat", "ais", "alt", "altg", "alts", "sq", "ss", "vr", "vrs", "cl0"
 AGES = {"pt", "tt", "ht", "b5t", "ts", "ct0", "ct1"}
 
 
+def ia5(c):
+    return chr(64 + c) if 1 <= c <= 26 else (chr(c) if 48 <= c <= 57 else "")
+
+
 def norm(f, v):
     """ages grow with time: only their presence is compared"""
     return ("-" if v == "-" else "set") if f in AGES else v
@@ -131,6 +135,31 @@ def oracle(parts, outcome, obs):
                     ch = [f for f in rows[icao] if rows[icao][f] != prev[icao].get(f)]
                     if ch:
                         fails.append("segment %d: re-feeding the frame just applied changed %s" % (k, ch))
+            # latest value: a carrier frame of altitude / squawk / callsign leaves exactly its decoded value
+            # (Q=1 altitude codes only: the Gillham codes are C05's known finding)
+            if icao in rows and pyspec.passes_filter(opts, df):
+                existing = icao in prev
+                got = rows[icao]
+                if df in (4, 20) and (existing or df == 4):
+                    code = getbits(v, nb, 20, 32)
+                    if code & 0x40 == 0 and code & 0x10:
+                        kind, val = pyspec.ac13_altitude(code)
+                        if kind == "ft" and got.get("alt") != str(val):
+                            fails.append("segment %d: DF%d altitude code %d shows %s, latest carrier says %d" % (k, df, code, got.get("alt"), val))
+                if df == 17 and 9 <= tc <= 18:
+                    code = getbits(v, nb, 41, 52)
+                    if code & 0x10:
+                        kind, val = pyspec.ac12_altitude(code)
+                        if kind == "ft" and got.get("alt") != str(val):
+                            fails.append("segment %d: DF17 TC%d altitude code %d shows %s, latest carrier says %d" % (k, tc, code, got.get("alt"), val))
+                if df in (5, 21) and (existing or df == 5):
+                    want = "%d" % pyspec.id13_squawk(getbits(v, nb, 20, 32))
+                    if got.get("sq") != want:
+                        fails.append("segment %d: DF%d identity shows %s, latest carrier says %s" % (k, df, got.get("sq"), want))
+                if df == 17 and 1 <= tc <= 4:
+                    cs = '"%s"' % "".join(ia5(getbits(v, nb, 41 + 6 * i, 46 + 6 * i)) for i in range(8))
+                    if got.get("ais") != cs:
+                        fails.append("segment %d: TC%d callsign shows %s, latest carrier says %s" % (k, tc, got.get("ais"), cs))
             # frames of one aircraft never touch another row
             for a in prev:
                 if a != icao and a in rows:
